@@ -37,6 +37,14 @@ for d in sorted(glob.glob("/verif/seeded/*/meta.json")):
     rows.append(f"| {sid} | {', '.join(os.path.basename(f) for f in m['files_changed'])} | {change} | {'exit '+str(m['detection'].get('check_exit'))} `{key[:70]}` | {first} |")
 caught_first = sum(1 for d in glob.glob("/verif/seeded/*/meta.json") if json.load(open(d))["detection"]["caught_by_the_check_as_first_built"])
 total = len(rows)
+per_round = {}
+for d in glob.glob("/verif/seeded/*/meta.json"):
+    m = json.load(open(d))
+    r = per_round.setdefault(m["round"], [0, 0, 0])
+    r[0] += 1
+    r[1] += 1 if m["detection"]["caught_by_the_check_as_first_built"] else 0
+    r[2] += 1 if m["detection"].get("check_exit") == 1 else 0
+round_lines = "\n".join(f"   round {k}: {v[0]} changes, {v[1]} caught by the checks as they stood, {v[0]-v[1]} missed -> checks extended; caught now: {v[2]} of {v[0]}." for k, v in sorted(per_round.items()))
 sec = f"""## 10. Which checks catch which deliberate changes
 
 Three sources of breakage were used; nothing below was ever committed to `/repo`.
@@ -45,15 +53,17 @@ Three sources of breakage were used; nothing below was ever committed to `/repo`
    `VERIF_OVERLAY` (`tools/mut.py`): about 400 across the 48 checks, listed per check in the manifest fragments'
    authors' reports and summarised in the evidence assumptions; every check was shown to exit 1 on several realistic
    mutations that the repository's own tests do not notice, and equivalent mutants were identified as such.
-2. **Independently seeded changes, round 1** (`/verif/seeded/Cnn/`): fresh sub-agents that saw only the property text
-   and a scratch worktree produced one property-breaking change per property with a demonstration test. The
-   coordinator confirmed each (`tools/seedverify.py`: demo passes without / fails with the change, tests of the touched
-   packages pass with it) and ran the check against it (`tools/seedrun.py`). 43 of 48 were caught by the checks as
-   first built; the 5 misses (C14, C17, C24, C29, C47) led to the extensions named in the table.
-3. **Round 2** (`/verif/seeded/Cnn-r2/`): a second set of agents was told what round 1 had changed and asked for a
-   different function and a different kind of mistake. 29 of 48 were caught as built, 19 were missed and the checks
-   were extended *along the missing dimension* (never special-casing the seeded input); all 96 are caught now and every
-   check still exits 0 on the unchanged tree in both tiers.
+2. **Independently seeded changes** (`/verif/seeded/Cnn[-rK]/`: `patch.diff`, the demonstration, the author's
+   `notes.md`, and `meta.json` with what was confirmed and how it is detected). In each round fresh sub-agents that saw
+   only the property texts and a scratch worktree (from round 2 on also the earlier rounds' patches, with the
+   instruction to choose a different function, a different kind of mistake and a different condition under which it
+   shows) produced one property-breaking change per property that keeps the repository's tests green, with a
+   demonstration test. The coordinator confirmed each (`tools/seedverify.py`: the demo passes without and fails with the
+   change, the tests of the touched packages pass with it) and ran the check against it (`tools/seedrun.py`, which
+   applies the patch in a scratch worktree and hands it to `./check` through a build overlay). Whatever was missed was
+   given back to the check's author with the instruction to extend the check *along the missing dimension* - never to
+   special-case the seeded input - while keeping both tiers silent on the unchanged tree:
+{round_lines}
 
 What the misses had in common - and what the extensions therefore added - were dimensions of *identity* (same AS
 number in another ISD, AS-local interface numbers, stream ids differing in high bits, permuted certificate order),
